@@ -31,13 +31,20 @@ _INFO = {}
 
 # ------------------------------------------------------------------ pool and operations
 
-def fresh_pool():
-    """[(label, model)] seed pool on fresh classes"""
+CX_OPS = ['customize(min_occurs=1)', 'customize(sub_name)', 'child_attrs(x)', 'child_attrs(n1)', 'child_attrs(n0)', 'child_attrs_all',
+          'subclass', 'append_field', 'insert_field']
+
+
+def fresh_pool(cfg='full'):
+    """[(label, model)] seed pool on fresh classes.  cfg 'cx': complex models only (deeper histories of the
+    customize / child_attrs / append_field / insert_field interplay)"""
     from spyne.model.primitive import Unicode, Integer, Decimal
     from spyne.model.binary import ByteArray
     from spyne.model.complex import ComplexModel, ComplexModelMeta, Array
     A = ComplexModelMeta('A', (ComplexModel,), {'__namespace__': 'urn:vf:c15', '_type_info': [('x', Integer), ('s', Unicode)]})
     B = ComplexModelMeta('B', (A,), {'__namespace__': 'urn:vf:c15', '_type_info': [('y', Integer)]})
+    if cfg == 'cx':
+        return [('A', A), ('B', B)]
     return [('Unicode', Unicode), ('Integer', Integer), ('A', A), ('B', B), ('Array(A)', Array(A)), ('Array(Integer)', Array(Integer)),
             ('Decimal', Decimal), ('ByteArray', ByteArray)]
 
@@ -62,8 +69,10 @@ def is_prim(m, name):
 SHARED_ATTRS = {'min_occurs': 1}    # one dict object reused by two customisations (operation 'shared-dict')
 
 
-def operations(tier):
+def operations(tier, cfg='full'):
     """[(op id, applicable(model) -> bool, apply(model) -> new model, requested attrs or None)]"""
+    if cfg == 'cx':
+        return [o for o in operations('thorough') if o['id'] in CX_OPS]
     from spyne.model.complex import Array, Iterable, Mandatory, ComplexModelMeta
     from spyne.model.primitive import Integer, Unicode
     ops = []
@@ -80,14 +89,17 @@ def operations(tier):
     op('customize(type_name)', lambda m: is_complex(m), lambda m: m.customize(type_name='TN'), None)
     op('customize(default)', lambda m: is_prim(m, 'Unicode') or is_prim(m, 'Integer'), lambda m: m.customize(default=(7 if is_prim(m, 'Integer') else 'd')), None)
     op('child_attrs(x)', lambda m: is_complex(m) and 'x' in m.get_flat_type_info(m), lambda m: m.customize(child_attrs={'x': dict(min_occurs=1)}), None)
+    # delayed child_attrs: constraints for fields that do not exist yet (append_field / insert_field add them later)
+    op('child_attrs(n1)', lambda m: is_complex(m) and 'n1' not in m.get_flat_type_info(m), lambda m: m.customize(child_attrs={'n1': dict(min_occurs=1)}), None)
+    op('child_attrs(n0)', lambda m: is_complex(m) and 'n0' not in m.get_flat_type_info(m), lambda m: m.customize(child_attrs={'n0': dict(max_len=7)}), None)
     op('child_attrs_all', lambda m: is_complex(m), lambda m: m.customize(child_attrs_all=dict(nillable=False)), None)
     op('Array(T)', lambda m: True, lambda m: Array(m), None)
     op('Array(T,wrapped=False)', lambda m: True, lambda m: Array(m, wrapped=False), None)
     op('Mandatory(T)', lambda m: True, lambda m: Mandatory(m), None)
     op('subclass', lambda m: is_complex(m) and getattr(m, '__orig__', None) is None,   # (documented: no inheriting from a customized class)
        lambda m: ComplexModelMeta('Sub' + m.__name__, (m,), {'__namespace__': 'urn:vf:c15', '_type_info': [('sub_f', Integer)]}), None)
-    op('append_field', lambda m: is_complex(m), lambda m: (m.append_field('n1', Integer), m)[1], None, kind='evolve')
-    op('insert_field', lambda m: is_complex(m), lambda m: (m.insert_field(0, 'n0', Unicode), m)[1], None, kind='evolve')
+    op('append_field', lambda m: is_complex(m) and 'n1' not in m.get_flat_type_info(m), lambda m: (m.append_field('n1', Integer), m)[1], None, kind='evolve')
+    op('insert_field', lambda m: is_complex(m) and 'n0' not in m.get_flat_type_info(m), lambda m: (m.insert_field(0, 'n0', Unicode), m)[1], None, kind='evolve')
     if tier == 'thorough':
         op('Iterable(T)', lambda m: True, lambda m: Iterable(m), None)
         op('child_attrs_noexc', lambda m: is_complex(m), lambda m: m.customize(child_attrs_all=dict(exc=True)), None)
@@ -188,9 +200,9 @@ def schema_of(history, tier):
     return out
 
 
-def replay_history(history, tier, ops=None):
-    ops = ops or {o['id']: o for o in operations(tier)}
-    pool = fresh_pool()
+def replay_history(history, tier, ops=None, cfg='full'):
+    ops = ops or {o['id']: o for o in operations(tier, cfg)}
+    pool = fresh_pool(cfg)
     for opid, idx in history:
         o = ops[opid]
         if idx >= len(pool) or not o['ok'](pool[idx][1]):
@@ -199,6 +211,79 @@ def replay_history(history, tier, ops=None):
         if o['kind'] == 'derive':
             pool.append(('%s<-%s' % (opid, pool[idx][0]), new))
     return pool
+
+
+def derivation_chain(history, cfg, i):
+    """operation ids that produced pool model i from a seed model, outermost last"""
+    n0 = len(fresh_pool(cfg)) if False else (2 if cfg == 'cx' else 8)
+    parents = {}
+    n = n0
+    for opid, idx in history:
+        if opid not in ('append_field', 'insert_field'):
+            parents[n] = (opid, idx)
+            n += 1
+    chain = []
+    while i in parents:
+        opid, i = parents[i]
+        chain.append(opid)
+    chain.reverse()
+    return chain, i
+
+
+EVOLVE = {'append_field': ('n1', 'Integer', {'min_occurs': 1}, 'child_attrs(n1)'), 'insert_field': ('n0', 'Unicode', {'max_len': 7}, 'child_attrs(n0)')}
+PROBE_KEYS = ('min_occurs', 'max_occurs', 'nillable', 'max_len', 'min_len', 'ge', 'exc', 'default')
+
+
+def check_evolve(hist, o, idx, pool, cfg, V):
+    """the documented effect of append_field / insert_field on a root class: the field appears (once, at the requested
+    position) in the class and in every customized variant of it and in the flat field list of every subclass; in a
+    variant it carries the constraints that variant's derivation asked for (delayed child_attrs / child_attrs_all) and
+    no others"""
+    import spyne.model.primitive as P
+    target = pool[idx][1]
+    if getattr(target, '__orig__', None) is not None:
+        return
+    fname, ftname, want_attrs, req_op = EVOLVE[o['id']]
+    plain = getattr(P, ftname)
+    for i, (lab, m) in enumerate(pool):
+        if not is_complex(m):
+            continue
+        if m is target or getattr(m, '__orig__', None) is target:
+            own = list(m._type_info.keys())
+            if own.count(fname) != 1:
+                V('evolve', 'field-missing-in-%s' % ('class' if m is target else 'variant'), 'after %s on %s the model %s has own fields %s' % (o['id'], pool[idx][0], lab, own))
+                continue
+            pos_ok = own[-1] == fname if o['id'] == 'append_field' else own[0] == fname
+            if not pos_ok:
+                V('evolve', 'field-position', 'after %s on %s the model %s has own fields %s' % (o['id'], pool[idx][0], lab, own))
+            chain, root = derivation_chain(hist[:-1], cfg, i)
+            alls = [c for c in chain if c in ('child_attrs_all', 'child_attrs_noexc')]
+            if len(alls) > 1:
+                continue
+            req = {}
+            if alls:
+                req.update({'child_attrs_all': {'nillable': False}, 'child_attrs_noexc': {'exc': True}}[alls[0]])
+            if req_op in chain:
+                req.update(want_attrs)
+            ft = m._type_info[fname]
+            for k in PROBE_KEYS:
+                got = getattr(ft.Attributes, k, None)
+                exp = req[k] if k in req else getattr(plain.Attributes, k, None)
+                if got != exp:
+                    V('evolve', ('lost' if k in req else 'leaked') + '-constraint:%s' % k,
+                      'after %s on %s the field %s of %s (derived by %s) has %s=%r, expected %r' % (o['id'], pool[idx][0], fname, lab, chain, k, got, exp))
+        else:
+            c, depth_ = m, 0
+            related = False
+            while c is not None and depth_ < 20:
+                if c is target or getattr(c, '__orig__', None) is target:
+                    related = True
+                c = getattr(c, '__extends__', None)
+                depth_ += 1
+            if related:
+                flat = list(m.get_flat_type_info(m).keys())
+                if flat.count(fname) != 1:
+                    V('evolve', 'field-missing-in-subclass', 'after %s on %s the subclass %s has flat fields %s' % (o['id'], pool[idx][0], lab, flat))
 
 
 def canon(pool):
@@ -210,12 +295,12 @@ def canon(pool):
 
 def bounds(tier):
     return {'seed_pool': [l for l, m in fresh_pool()] if False else ['Unicode', 'Integer', 'A', 'B(A)', 'Array(A)', 'Array(Integer)', 'Decimal', 'ByteArray'],
-            'operations': 17 if tier == 'quick' else 20, 'depth': 2 if tier == 'quick' else 3, 'hash_seeds': ['0', '1', '7', '1234']}
+            'operations': 19 if tier == 'quick' else 22, 'depth': 2 if tier == 'quick' else 3, 'complex_only_pool': {'seed_pool': ['A', 'B(A)'], 'operations': CX_OPS, 'depth': 3 if tier == 'quick' else 4}, 'hash_seeds': ['0', '1', '7', '1234']}
 
 
-def first_steps(tier):
-    ops = operations(tier)
-    pool = fresh_pool()
+def first_steps(tier, cfg='full'):
+    ops = operations(tier, cfg)
+    pool = fresh_pool(cfg)
     out = []
     for o in ops:
         for idx in range(len(pool)):
@@ -227,6 +312,8 @@ def first_steps(tier):
 def shards(tier):
     depth = 2 if tier == 'quick' else 3
     out = [{'kind': 'bfs', 'prefix': [fs], 'depth': depth, 'tier': tier} for fs in first_steps(tier)]
+    # complex models only, two levels deeper
+    out += [{'kind': 'bfs', 'prefix': [fs], 'depth': depth + 1, 'tier': tier, 'cfg': 'cx'} for fs in first_steps(tier, 'cx')]
     for seed in ('1', '7', '1234'):
         out.append({'kind': 'seed', 'seed': seed, 'depth': 2, 'tier': tier})
     return out
@@ -238,14 +325,16 @@ def finish(tier, agg):
             'every transition is a call of the real derivation API on a pool rebuilt by replaying the history'}
 
 
-def check_transition(hist, opdesc, idx, before_pool_snap, pool_before_len, pool, res, shard, tier, schema_before):
+def check_transition(hist, opdesc, idx, before_pool_snap, pool_before_len, pool, res, shard, tier, schema_before, cfg='full'):
     """frame / post / order invariants for the last transition"""
     o = opdesc
     key = hist
 
     def V(kind, detail, what):
         res['violations'].append({'sig': 'C15|%s|%s|%s' % (kind, o['id'], detail), 'what': 'history %s: %s' % (hist, what),
-                                  'case': {'history': hist, 'tier': tier}, 'count': 1})
+                                  'case': {'history': hist, 'tier': tier, 'cfg': cfg}, 'count': 1})
+    if o['kind'] == 'evolve':
+        check_evolve(hist, o, idx, pool, cfg, V)
     after = [snapshot(m, pool) for lab, m in pool]
     target = pool[idx][1]
     for i in range(pool_before_len):
@@ -339,8 +428,9 @@ def run_shard(shard, only=None):
         else:
             res['nontrivial'] += 1
         return res
-    ops = {o['id']: o for o in operations(tier)}
-    oplist = operations(tier)
+    cfg = shard.get('cfg', 'full')
+    ops = {o['id']: o for o in operations(tier, cfg)}
+    oplist = operations(tier, cfg)
     depth = shard['depth']
     frontier = collections.deque([list(map(list, shard['prefix']))])
     seen = set()
@@ -354,7 +444,7 @@ def run_shard(shard, only=None):
                 pass
             elif only[:len(hist) + 1] != hist + [step]:
                 continue
-        pool = replay_history(hist, tier, ops)
+        pool = replay_history(hist, tier, ops, cfg)
         if pool is None:
             continue
         opid, idx = step
@@ -367,7 +457,7 @@ def run_shard(shard, only=None):
             new = o['fn'](pool[idx][1])
         except Exception as e:
             res['violations'].append({'sig': 'C15|operation-raises|%s|%s' % (opid, type(e).__name__), 'what': 'history %s: %s raised %r' % (hist + [step], opid, e),
-                                      'case': {'history': hist + [step], 'tier': tier}, 'count': 1})
+                                      'case': {'history': hist + [step], 'tier': tier, 'cfg': cfg}, 'count': 1})
             continue
         if o['kind'] == 'derive':
             pool.append(('%s<-%s' % (opid, pool[idx][0]), new))
@@ -376,7 +466,7 @@ def run_shard(shard, only=None):
         res['cov']['transitions'] += 1
         res['cov']['histories'] += 1
         if only is None or h2 == only:
-            check_transition(h2, o, idx, before, n_before, pool, res, shard, tier, None)
+            check_transition(h2, o, idx, before, n_before, pool, res, shard, tier, None, cfg)
         k = canon(pool)
         if k not in seen:
             seen.add(k)
@@ -426,5 +516,5 @@ def replay(case):
         r = run_shard({'kind': 'seed', 'seed': case['seed'], 'depth': 2, 'tier': case['tier']})
         return r['violations']
     hist = case['history']
-    r = run_shard({'kind': 'bfs', 'prefix': [hist[0]], 'depth': len(hist), 'tier': case['tier']}, only=hist)
+    r = run_shard({'kind': 'bfs', 'prefix': [hist[0]], 'depth': len(hist), 'tier': case['tier'], 'cfg': case.get('cfg', 'full')}, only=hist)
     return r['violations']
